@@ -14,7 +14,7 @@ func init() {
 		id: "C12",
 		li: levelInfo{
 			Level:       "proof",
-			Explanation: "Decided for all inputs without executing anything. O1: the 256 constants of the CRC table (read from the program's initialiser stores) equal the remainders for polynomial 0x1021 and the table is GF(2)-linear. O2: the SSA of the fold body is interpreted over GF(2)-affine forms in the 16 state bits and 8 byte bits; the resulting 16x24 bit-matrix must equal that of one CRC-16/XMODEM step, which covers all 2^16 x 2^8 (state, byte) pairs at once. O3: the fold starts at 0, visits indices 0..len-1 once each in order and returns the loop-carried state. O4: the two scans of the hash-tag function are recognised as first-index loops and its branch structure is evaluated in a zone domain over the four orderings of ('{' position, '}' position, length); the returned expression must be whole key / whole key / whole key / b[i+1:j]. O5: the routing index is crc16(hashtag(key)) & 16383 into a 16384-entry table, no other computed read index exists, and every address the router returns is taken from that entry unless the entry is nil (the C14.R5 obligations on the router are re-evaluated here).",
+			Explanation: "Decided for all inputs without executing anything. O1: the 256 constants of the CRC table (read from the program's initialiser stores) equal the remainders for polynomial 0x1021 and the table is GF(2)-linear. O2: the SSA of the fold body is interpreted over GF(2)-affine forms in the 16 state bits and 8 byte bits; the resulting 16x24 bit-matrix must equal that of one CRC-16/XMODEM step, which covers all 2^16 x 2^8 (state, byte) pairs at once. O3: the fold starts at 0, visits indices 0..len-1 once each in order and returns the loop-carried state. O4: the two scans of the hash-tag function are recognised as first-index loops and its branch structure is evaluated in a zone domain over the four orderings of ('{' position, '}' position, length); the returned expression must be whole key / whole key / whole key / b[i+1:j]. O5: the routing index is crc16(hashtag(key)) & 16383 into a 16384-entry table, no other computed read index exists, and every address the router returns is taken from that entry unless the entry is nil (the C14.R5 obligations on the router are re-evaluated here). O4 also requires both brace positions to be first occurrences (bytes.LastIndexByte is rejected) and the second scan to start after the first brace.",
 			Assumptions: []string{"polynomial 0x1021 (CRC-16/XMODEM) and the Redis Cluster hash-tag rule are the reference", "the checker's affine domain, zone domain and first-index-loop lemma are correct (about 500 lines)"},
 			TrustedBase: []string{"go/packages + go/ssa construction", "samlint ebits.go (GF(2)-affine domain)", "samlint zone.go (difference-bound matrices)", "first-index loop lemma in rules_c12.go", "CRC-16/XMODEM polynomial 0x1021; Redis Cluster specification hash-tag text"},
 		},
